@@ -218,11 +218,13 @@ pub fn run_init(init: &Init, first: &[usize], tier: Tier) -> CaseOut {
             ops.push(op.clone());
             out.add("real_executions", 1);
             let before = if op == Op::Elim { Some(snap(p)) } else { None };
-            match op.run(&mut p2, d) {
+            let res = if ops.len() <= 1 { op.run_both(&mut p2, d) } else { op.run(&mut p2, d) };
+            match res {
                 Err(msg) => {
                     if op.prunes() {
                         let rec = json!({"init": init.to_json(), "ops": ops.iter().map(|o| o.to_json()).collect::<Vec<_>>()});
-                        out.violate(Violation::new(format!("{} panicked: {msg}", op.name()), rec).tag("kind", "panic").tag("op", op.name()));
+                        let (kind, text) = op.failure(&msg);
+                        out.violate(Violation::new(text, rec).tag("kind", kind).tag("op", op.name()));
                     }
                 }
                 Ok(()) => {
@@ -313,9 +315,10 @@ pub fn run_case(c: &Case) -> CaseOut {
             before_last = Some(snap(&p));
         }
         out.add("real_executions", 1);
-        if let Err(msg) = op.run(&mut p, d) {
+        if let Err(msg) = op.run_both(&mut p, d) {
             if i == last {
-                out.violate(Violation::new(format!("{:?} panicked: {msg}", op.to_json().to_string()), rec()).tag("kind", "panic").tag("op", opname(op)));
+                let (kind, text) = op.failure(&msg);
+                out.violate(Violation::new(format!("{:?}: {text}", op.to_json().to_string()), rec()).tag("kind", kind).tag("op", opname(op)));
             }
             return out; // a failing prefix is reported by the shorter case
         }
